@@ -54,6 +54,7 @@ CONSTANTS
   Weak_NoWitnessNeeded,           \* detectDivergence returns nil when no witness matched
   Weak_BackwardsUnbound,          \* backwards() never compares the verified chain's end with the target header
   Weak_ReplacementHashUnchecked,  \* after replacing the primary its block is not compared with the target header
+  Weak_DivergentHeaderExaminedOncePerRun, \* detectDivergence examines a divergent header only for the first witness reporting it
   Weak_PartialTraceOnBenignError, \* verifySkipping returns the partial trace (not nil) when the next pivot cannot be fetched
   Weak_PromotedWitnessStays       \* findNewPrimary leaves the promoted provider in the witness list when
                                   \* removing it would empty the list (shipped behaviour; scenario flag cfg.rollback)
@@ -389,8 +390,13 @@ CompareAll(sc, x, wits, T, i, acc) ==
        CompareAll(sc, c.x, wits, T, i + 1, acc @@ (wits[i] :> c.rep))
 
 \* detectDivergence: the loop reads exactly len(witnesses) values  [x, res]
-RECURSIVE DetectLoop(_, _, _, _, _, _, _, _)
-DetectLoop(sc, x, trace, chan, i, matched, toRemove, now) ==
+\* The verdict on a conflicting header is PER (witness, header): every witness that reports a
+\* different header is examined on its own ability to back it -- another witness' failure to
+\* back the very same header says nothing about this one.  (Weak_DivergentHeaderExaminedOncePerRun:
+\* a header that was examined once without an attack error is not examined again in this run;
+\* the later reporter is only put on the removal list, so the outcome depends on arrival order.)
+RECURSIVE DetectLoop(_, _, _, _, _, _, _, _, _)
+DetectLoop(sc, x, trace, chan, i, matched, toRemove, now, examined) ==
   LET wits == x.cl.wits IN
   IF i > Min2(Len(chan), Len(wits)) THEN
        LET rm == RemoveWitnesses(wits, toRemove) IN
@@ -399,13 +405,17 @@ DetectLoop(sc, x, trace, chan, i, matched, toRemove, now) ==
              res |-> IF matched \/ Weak_NoWitnessNeeded THEN Nil ELSE "FailedCrossRef"]
   ELSE LET r   == chan[i]
            idx == IndexOf([j \in DOMAIN wits |-> [v |-> wits[j]]], r.w) IN
-       IF r.k = "match" THEN DetectLoop(sc, x, trace, chan, i + 1, TRUE, toRemove, now)
+       IF r.k = "match" THEN DetectLoop(sc, x, trace, chan, i + 1, TRUE, toRemove, now, examined)
        ELSE IF r.k = "conflict" THEN
+            IF Weak_DivergentHeaderExaminedOncePerRun /\ B(sc, r.b).hid \in examined
+            THEN DetectLoop(sc, x, trace, chan, i + 1, matched, toRemove \cup {idx}, now, examined)
+            ELSE
             LET hc == HandleConflict(sc, x, trace, r.b, r.w, now) IN
             IF hc.attack THEN [x |-> hc.x, res |-> "Attack"]
-            ELSE DetectLoop(sc, hc.x, trace, chan, i + 1, matched, toRemove \cup {idx}, now)
-       ELSE IF r.k = "bad" THEN DetectLoop(sc, x, trace, chan, i + 1, matched, toRemove \cup {idx}, now)
-       ELSE DetectLoop(sc, x, trace, chan, i + 1, matched, toRemove, now)
+            ELSE DetectLoop(sc, hc.x, trace, chan, i + 1, matched, toRemove \cup {idx}, now,
+                            examined \cup {B(sc, r.b).hid})
+       ELSE IF r.k = "bad" THEN DetectLoop(sc, x, trace, chan, i + 1, matched, toRemove \cup {idx}, now, examined)
+       ELSE DetectLoop(sc, x, trace, chan, i + 1, matched, toRemove, now, examined)
 
 \* Ghost: the witnesses that CAN BACK A DIFFERENT HEADER -- their first reply is a
 \* conflicting block and handleConflictingHeaders, run right after the comparison round,
@@ -423,7 +433,7 @@ Detect(sc, x0, trace, now, sched) ==
   ELSE LET x == [x0 EXCEPT !.ph = "det", !.tr = trace, !.fan = @ + 1]
            c == CompareAll(sc, x, x.cl.wits, trace[Len(trace)], 1, << >>)
            y == [c.x EXCEPT !.att = Attackers(sc, c.x, trace, c.rep, now)] IN
-       DetectLoop(sc, y, trace, Channel(OrderAt(sched, x, x.cl.wits), c.rep), 1, FALSE, {}, now)
+       DetectLoop(sc, y, trace, Channel(OrderAt(sched, x, x.cl.wits), c.rep), 1, FALSE, {}, now, {})
 
 \* ------------------------------------------------------------------ client.go verification modes
 \* verifySkippingAgainstPrimary  [x, res]
